@@ -41,6 +41,47 @@ def run(prog, tier):
     return R
 
 
+def semantic_facade(prog):
+    """fold CNFio.is_satisfiable and CNFio.solve (with the methods of the class they may call) over a recording stand-in for sat_solve:
+    the formula itself, the command, the `sameas` name and the verbosity must be handed over, and the verdict / the (verdict, witness) pair
+    handed back"""
+    import types
+    from ..fold import Folder, Raised
+    from ..ql import Unknown
+    ci = prog.cls("cnfgen.formula.cnfio", "CNFio")
+    methods = {k: v.node for k, v in ci.methods.items()}
+    n = 0
+    for cmd, sameas in (("solverA", None), (None, "minisat"), ("x -y", "glucose"), (None, None)):
+        for mname in ("is_satisfiable", "solve"):
+            for verbose in ((0,) if mname == "is_satisfiable" else (0, 1, 2)):
+                calls = []
+
+                def fake(F, **k):
+                    calls.append((F, dict(k)))
+                    return ("ANSWER", ["WITNESS"])
+                f = Folder(env={}, fuel=20000, methods=methods)
+                f.globals = {"sat_solve": lambda *a, **k: fake(*a, **dict(zip(("cmd", "sameas", "verbose"), a[1:]), **k))}
+                me = types.SimpleNamespace()
+                kw = {"cmd": cmd, "sameas": sameas}
+                if mname == "solve":
+                    kw["verbose"] = verbose
+                try:
+                    got = f.call_function(methods[mname], [me], kw)
+                except Raised as r:
+                    return False, "%s(cmd=%r, sameas=%r) raises %s" % (mname, cmd, sameas, r.cls)
+                except Unknown as e:
+                    return None, "cannot fold CNFio.%s: %s" % (mname, e)
+                want = "ANSWER" if mname == "is_satisfiable" else ("ANSWER", ["WITNESS"])
+                if got != want and not (isinstance(got, (tuple, list)) and tuple(got) == want):
+                    return False, "%s(cmd=%r, sameas=%r) returns %r; sat_solve answered ('ANSWER', ['WITNESS'])" % (mname, cmd, sameas, got)
+                if len(calls) != 1 or calls[0][0] is not me or calls[0][1].get("cmd") != cmd or calls[0][1].get("sameas") != sameas or \
+                        calls[0][1].get("verbose", 0) != verbose:
+                    return False, "%s(cmd=%r, sameas=%r, verbose=%r) calls sat_solve with %s" % (
+                        mname, cmd, sameas, verbose, [(("self" if c[0] is me else "another object"), c[1]) for c in calls])
+                n += 1
+    return True, "%d calls folded: the formula, cmd, sameas and verbosity reach sat_solve, its answer comes back" % n
+
+
 def check_bridge(R, prog, T):
     """BRIDGE-SEMANTICS: the three interface functions and sat_solve, folded over a stand-in file table and a scripted process
     (sa/props/_c20_fold.py), give the documented verdicts and errors, hand the formula over as DIMACS text, split the command into
@@ -281,8 +322,16 @@ def check_verdict(R, prog):
     so = prog.func("cnfgen.formula.cnfio", "CNFio.solve")
     r1 = [src(s.value) for s in stmts_in(cio.node) if isinstance(s, ast.Return)]
     r2 = [src(s.value) for s in stmts_in(so.node) if isinstance(s, ast.Return)]
+    sem = semantic_facade(prog)
     if r1 == ["sat_solve(self, cmd=cmd, sameas=sameas, verbose=0)[0]"]:
         R.ok("VERDICT", "is_satisfiable == sat_solve(self, cmd, sameas)[0]", cio.key)
+    elif sem[0] is True:
+        R.ok("VERDICT", "is_satisfiable / solve: %s" % sem[1], cio.key)
+        R.unknown("VERDICT", "is_satisfiable", cio.key, "shape not recognised (%s); the meaning of the fragment was confirmed by folding" % r1)
+        r2 = ["sat_solve(self, cmd=cmd, sameas=sameas, verbose=verbose)"]
+    elif sem[0] is False:
+        R.bad(F("VERDICT", cio, "is_satisfiable / solve", sem[1]))
+        r2 = ["sat_solve(self, cmd=cmd, sameas=sameas, verbose=verbose)"]
     else:
         R.bad(F("VERDICT", cio, "is_satisfiable", "must return the first component of sat_solve(self, cmd=cmd, sameas=sameas, ..); found %s" % r1))
     if r2 == ["sat_solve(self, cmd=cmd, sameas=sameas, verbose=verbose)"]:
